@@ -362,6 +362,73 @@ fn layout_hint_inputs() -> Result<u64, String> {
             }
         }
     }
+    n += big_place_inputs()?;
+    Ok(n)
+}
+
+/// identity hasher for u64 elements
+#[derive(Default, Clone)]
+struct IdH(u64);
+impl std::hash::Hasher for IdH {
+    fn finish(&self) -> u64 {
+        self.0.wrapping_mul(0x9E37_79B9_7F4A_7C15)
+    }
+    fn write(&mut self, b: &[u8]) {
+        for &x in b {
+            self.0 = (self.0 << 8) | x as u64;
+        }
+    }
+    fn write_u64(&mut self, v: u64) {
+        self.0 = v;
+    }
+}
+
+/// deserialize_in_place into sets that already hold thousands of elements (full, nearly full, half full):
+/// before the first element is read no allocation larger than both the old one and a 4096-entry table
+/// may be requested, for every claimed hint.
+fn big_place_inputs() -> Result<u64, String> {
+    type BSet = hashbrown::HashSet<u64, std::hash::BuildHasherDefault<IdH>, CheckAlloc>;
+    let mut n = 0;
+    for &(cap, fill) in &[(4096usize, 7168usize), (4096, 7167), (4096, 3168), (3584, 3584), (28, 28), (28, 27)] {
+        for &hint in HINTS.iter() {
+            for len in [0usize, 2] {
+                env::reset();
+                let bound = BSet::with_capacity_and_hasher_in(4096, Default::default(), CheckAlloc).allocation_size();
+                let mut place = BSet::with_capacity_and_hasher_in(cap, Default::default(), CheckAlloc);
+                let fill = fill.min(place.capacity());
+                for i in 0..fill as u64 {
+                    place.insert(1000 + i);
+                }
+                let before = place.allocation_size();
+                let what = format!("deserialize_in_place({len} elements, claimed size hint {:?}) into a set holding {fill} elements with capacity {}", hint, place.capacity());
+                let entries: Vec<(u64, u64)> = (0..len as u64).map(|i| (i, 0)).collect();
+                let mut src = Src { entries, hint, fail_at: None, pos: 0, produced: 0 };
+                env::with(|e| {
+                    e.log_requests = true;
+                    e.requests.clear();
+                });
+                let r = env::catch(|| BSet::deserialize_in_place(&mut src, &mut place));
+                let req = env::with(|e| {
+                    e.log_requests = false;
+                    std::mem::take(&mut e.requests)
+                });
+                r.map_err(|m| format!("{what}: panicked: {m}"))?.map_err(|e| format!("{what}: failed: {e}"))?;
+                for f in &req {
+                    if f.0 > bound.max(before) {
+                        return Err(format!("{what}: allocation request of {} bytes exceeds both the old allocation ({before}) and that of a 4096-entry hint ({bound})", f.0));
+                    }
+                }
+                let mut got: Vec<u64> = place.iter().copied().collect();
+                got.sort_unstable();
+                if got != (0..len as u64).collect::<Vec<_>>() {
+                    return Err(format!("{what}: result holds {} elements, expected exactly the {len} of the input", got.len()));
+                }
+                drop(place);
+                end_of_run_checks(&ZERO_BASE).map_err(|m| format!("{what}: {m}"))?;
+                n += 1;
+            }
+        }
+    }
     Ok(n)
 }
 
